@@ -1452,3 +1452,26 @@ mut("x-c19-zip-loop-mixed-fold", "C19", "src/cgi/mod.rs",
     """            let ord = l.to_ascii_uppercase().cmp(&r.to_ascii_uppercase());""",
     """            let ord = l.to_ascii_uppercase().cmp(&r.to_ascii_lowercase());""",
     "R19.3/varname-cmp", "the two sides are folded differently", base="w6-r7")
+
+# ---- round h -----------------------------------------------------------------------------------------------------------------------------
+mut("c04-final-state-yields-stale-output", "C04", "src/parser/request.rs",
+    """        self.input_len += new_input;
+        self.output.clear();
+""",
+    """        self.input_len += new_input;
+        if matches!(self.state, State::Done(_) | State::Fatal(_)) {
+            return Yield { done: true, output: &self.output };
+        }
+        self.output.clear();
+""",
+    "R4.6/", "a call after done / a fatal error hands the previous call's replies out again (seeds C03-h, C04-h)")
+mut("c17-flags-encode-masks-unknown-bits", "C17", "src/protocol/fields.rs",
+    """        v.bits()
+    }""",
+    """        v.intersection(RequestFlags::all()).bits()
+    }""",
+    "R17.10/", "a BeginRequest body with an undefined flag bit no longer re-encodes to itself (seed C17-h)")
+mut("c17-flags-decode-truncates", "C17", "src/protocol/fields.rs",
+    """        Self::from_bits_retain(v)""",
+    """        Self::from_bits_truncate(v)""",
+    "R17.10/", "undefined flag bits are dropped while decoding")
